@@ -172,7 +172,9 @@ def evaluate(c):
         canon.append('%s|%s|%s' % (name, pwr, dist))
     # 6. a second table on the same object that differs from the first request in the azimuth start only
     # (and then in the zenith start only): three of its rows against the radiation sum
-    for zen2, azi2, what in ((zen, (azi[0] + 90., azi[1], azi[2]), 'azimuth'), ((zen[0] + 7., zen[1], zen[2] - 1), azi, 'zenith')):
+    # ... and a cut through the zenith (negative zenith angles) / a full turn in zenith (free space)
+    zcut = (-75., 15., 11) if ground else (-90., 30., 12)
+    for zen2, azi2, what in ((zen, (azi[0] + 90., azi[1], azi[2]), 'azimuth'), ((zen[0] + 7., zen[1], zen[2] - 1), azi, 'zenith'), (zcut, azi, 'zenith-cut')):
         et, ep, gain = obs.far(m, zen2, azi2)
         ntr += 1
         et, ep = np.array(et), np.array(ep)
